@@ -19,10 +19,14 @@ RULE = ("case = a seeded history of {create, validate, rename, unlink, foreign o
         "create/rename of the history ONE RUN PER SYSTEM CALL INDEX k - the instance dies right after its k-th system call "
         "(only effects the kernel had applied survive) - and one run per file-system call failing with ENOSPC / EACCES: "
         "exhaustive over crash points of that operation.  evaluations counts histories; fault_fire_counts counts the "
-        "enumerated crash/error runs.  distinct = distinct histories by hash; non-trivial = >= 2 operations")
+        "enumerated crash/error runs.  distinct = distinct histories by hash; non-trivial = >= 2 operations.  One case in sixteen is "
+        "the family 'concurrent': 2-3 masters call create() at the same moment and their system calls interleave under the seeded "
+        "scheduler; whenever the path exists it must hold one instance's complete pid line (or the stale content found), and no "
+        "temporary file may be left")
 ASSUMPTIONS = [
-    "operations of different instances do not interleave at system-call granularity (the property quantifies over "
-    "sequences of operations; the read-then-unlink window between two instances exists for every possible implementation)",
+    "in the history families operations of different instances do not interleave at system-call granularity (the property quantifies over "
+    "sequences of operations; the read-then-unlink window between two instances exists for every possible implementation); the "
+    "'concurrent' family interleaves create() calls only, and judges only what every interleaving must preserve (complete content)",
     "rename(2) is atomic; a crash loses nothing the kernel had applied and applies nothing else; write(2) of the few bytes "
     "of a pid file is all-or-error (ENOSPC/EACCES raise), never short",
     "liveness of a recorded pid is kill(pid, 0): ESRCH = dead, success or EPERM = alive",
@@ -34,7 +38,86 @@ PATH = "/run/g.pid"
 PATH2 = "/run/g.pid.2"
 
 
+def make_concurrent_case(index, rng, tier):
+    return {"family": "concurrent", "n": rng.randrange(2, 4), "pre": rng.choice([None, None, "garbage", "4242\n", ""]),
+            "fine": rng.choice([1, 2, 3]), "fine_long": rng.randrange(2) == 0, "ops": []}
+
+
+def run_concurrent(case, choices):
+    """2-3 masters start at the same moment on one path: their create() calls interleave at system-call granularity (seeded).  Whatever the
+    interleaving, the path - whenever it exists - holds the complete pid line of one of them (or the stale content that was there before)."""
+    from simkit.kernel import Sim
+    from simkit import facade, seams
+    res = Result()
+    sim = Sim(choices, max_steps=20000, max_time=20.0)
+    seams.install_kernel_seams()
+    facade.SIM["sim"] = sim
+    sim.fine_interleave = case["fine"]
+    sim.fine_long = bool(case.get("fine_long"))
+    pre = case["pre"]
+    if pre is not None:
+        from simkit.kernel import Inode
+        n0 = Inode("file", 0o644, 0, 0)
+        n0.data = bytearray(pre.encode())
+        n0.path = PATH
+        sim.fs[PATH] = n0
+    outcome = {}
+    procs = []
+
+    def inst_main(i):
+        pf = Pidfile(PATH)
+        try:
+            pf.create(seams.OS.getpid())
+            outcome[i] = "created"
+        except RuntimeError as e:
+            outcome[i] = "refused"
+        seams.TIME.sleep(5.0)             # the instance keeps running (its pid stays alive for the others' validate())
+    for i in range(case["n"]):
+        procs.append(sim.spawn_proc((lambda i=i: inst_main(i)), "inst%d" % i, 1, {"PWD": "/"}))
+    valid = {("%d\n" % p.pid).encode() for p in procs}
+    if pre is not None:
+        valid.add(pre.encode())
+    bad = []
+
+    def observer(s, actor, kind, detail):
+        n = s.fs.get(PATH)
+        if n is not None and bytes(n.data) not in valid and not bad:
+            bad.append((actor, kind, detail, bytes(n.data)))
+    sim.observers.append(observer)
+    try:
+        sim.run(until=lambda: len(outcome) == case["n"])
+        if sim.crash:
+            from simkit.core import HarnessError
+            raise HarnessError(sim.crash)
+        ctx = "n=%d pre=%r fine=%s outcomes=%r pids=%r" % (case["n"], pre, case["fine"], outcome, [p.pid for p in procs])
+        for name, tb in sim.escaped:
+            res.violate("C17:concurrent:exception-escaped", "%s: %s; %s" % (name, tb[-300:], ctx))
+        if bad:
+            res.violate("C17:concurrent:incomplete-content", "while %d masters were starting at the same time the pid file held %r right after "
+                        "%s %s %r: neither a complete pid line of one of them nor what was there before; %s"
+                        % (case["n"], bad[0][3], bad[0][0], bad[0][1], bad[0][2], ctx))
+        n = sim.fs.get(PATH)
+        created = [i for i, o in outcome.items() if o == "created"]
+        if created and (n is None or bytes(n.data) not in {("%d\n" % procs[i].pid).encode() for i in created}):
+            res.violate("C17:concurrent:final-content", "instances %r created the pid file, yet it finally holds %r; %s"
+                        % (created, bytes(n.data) if n else None, ctx))
+        left = sorted(pth for pth in sim.fs if pth.startswith("/run/") and pth != PATH)
+        if left:
+            res.violate("C17:concurrent:temp-file-left", "temporary files left next to the pid file: %r; %s" % (left, ctx))
+        res.nontrivial = True
+        res.faults.update(sim.faults)
+        res.probes["concurrent_creates"] += 1
+        res.from_log(sim.log)
+        res.states.add(h64("concurrent", tuple(sorted(outcome.values())), pre))
+        res.sample = {"family": "concurrent", "instances": case["n"], "pre": pre, "outcomes": outcome}
+    finally:
+        sim.shutdown()
+    return res
+
+
 def make_case(index, rng, tier):
+    if index % 16 == 15:
+        return make_concurrent_case(index, rng, tier)
     ninst = rng.randrange(2, 4)
     ops = []
     pre = rng.randrange(6)
@@ -71,6 +154,8 @@ def make_case(index, rng, tier):
 
 
 def run(case, choices):
+    if case.get("family") == "concurrent":
+        return run_concurrent(case, choices)
     res = Result()
     final_target = None
     for j in range(len(case["ops"]) - 1, -1, -1):
@@ -263,6 +348,12 @@ def _play(case, choices, res, fault, _unused, target):
 
 
 def shrink(case):
+    if case.get("family") == "concurrent":
+        if case["n"] > 2:
+            yield dict(case, n=2)
+        if case["pre"] is not None:
+            yield dict(case, pre=None)
+        return
     ops = case["ops"]
     for i in range(len(ops)):
         yield dict(case, ops=ops[:i] + ops[i + 1:])
